@@ -316,3 +316,10 @@ Proof.
   destruct (curr >=? sz) eqn:E; [|reflexivity].
   f_equal. unwrap. lia.
 Qed.
+
+(* non-vacuity: the range hypotheses are satisfiable, and a concrete instance *)
+Example agree_hyps_satisfiable :
+  in_u32 4294967295 /\ in_s32 (-2147483648) /\ in_s64 (-1) /\ in_u64 18446744073709551615 /\
+  in_u16 65535 /\ in_os (mkOS 524280 65535) /\
+  go_element 16 (-1) 8 = (8, true) /\ element 16 (-1) 8 = Some 8.
+Proof. unfold in_os. unranges. cbn [DataSize PointerCount]. vm_compute. intuition congruence. Qed.
